@@ -30,6 +30,19 @@ def gen_compare():
     return True, ""
 
 
+def gen_micro():
+    """micro/walk.go, exts.go, unify.go, reify.go -> coq/gen/MicroGen.v (statement-by-statement translation into the result monad of GoLite.v)."""
+    os.makedirs(vc.BUILD, exist_ok=True)
+    binp = os.path.join(vc.BUILD, "genmicro")
+    rc, out = vc.run(["go", "build", "-o", binp, "./cmd/genmicro"], cwd=vc.HARNESS, timeout=600, env=vc.GOENV)
+    if rc != 0:
+        return False, "genmicro does not build: " + out[-1500:]
+    rc, out = vc.run([binp, vc.REPO, os.path.join(vc.COQ, "gen")], cwd=vc.VERIF, timeout=120, env=vc.GOENV)
+    if rc != 0:
+        return False, "genmicro: " + out[-1500:]
+    return True, ""
+
+
 def gen_tables():
     import gen_tables as gt
     return gt.generate(vc.REPO, os.path.join(vc.COQ, "gen"))
